@@ -30,7 +30,7 @@ import (
 
 func init() {
 	register(&Check{ID: "C06", Level: "fault_enumeration",
-		Rule: "runs of one transport (ReuseConnTransport with IdleTimeout 50-200 ms, or the TCP fallback of a udp:// upstream whose UDP leg always answers TC=1) x 1..64 concurrent callers x a sequence of exchanges with unique qnames; " +
+		Rule: "runs of one transport (ReuseConnTransport with IdleTimeout 50-200 ms, or the TCP fallback of a udp:// upstream whose UDP leg always answers TC=1) x 1..64 concurrent callers x a sequence of exchanges with unique qnames (plus twins: 2-8 concurrent callers asking the same question with IDs of their own - own ID back, no reply returned to two exchanges); " +
 			"per exchange: server reply delay 0-20 ms, reply whole | 1-byte leading segments | random segments with 0.2-3 ms pauses | aborted mid-reply by FIN or RST; caller deadline placed before the query write completes | between write and first reply byte | mid-reply | just after | generous, " +
 			"by deadline or explicit cancel; gap to the caller's next exchange 0-5 ms or IdleTimeout +-8 ms. One evaluation = one exchange (K1, K2) or one query arrival at the server (S1). " +
 			"Distinct non-trivial cases = distinct tuples (variant, callers, deadline placement, reply shape, outcome class, connection was reused for this query, connection was reused after this query, caller had already given up when the reply completed)",
@@ -92,6 +92,13 @@ func runC06(c *Ctx) {
 	if c.Replay != nil {
 		var w c06Witness
 		json.Unmarshal(c.Replay.Case, &w)
+		var fn struct {
+			Fn string `json:"fn"`
+		}
+		if json.Unmarshal(c.Replay.Case, &fn); fn.Fn == "c06Twins" {
+			c06Twins(c)
+			return
+		}
 		for k := 0; k < 5 && c.ViolationCount() == 0; k++ {
 			c06One(c, w.Run.Idx)
 		}
@@ -104,6 +111,7 @@ func runC06(c *Ctx) {
 		c06One(c, idx)
 	})
 	<-lateDone
+	c06Twins(c)
 	c.Ev.Set("race_reports_logged_not_judged_here", upRaceReports(c))
 }
 
